@@ -270,9 +270,11 @@ fn reply_summary(p: &[u8]) -> Value {
     }
     let mut opts: std::collections::BTreeMap<u8, Vec<u8>> = Default::default();
     let mut i = 240;
+    let mut ended = false;
     while i < p.len() {
         let c = p[i];
         if c == 255 {
+            ended = true;
             break;
         }
         if c == 0 {
@@ -290,7 +292,8 @@ fn reply_summary(p: &[u8]) -> Value {
         i += 2 + l;
     }
     let u32of = |c: u8| opts.get(&c).filter(|v| v.len() == 4).map(|v| u32::from_be_bytes([v[0], v[1], v[2], v[3]]) as u64);
-    json!({"ok": true, "op": p[0], "xid": u32::from_be_bytes([p[4], p[5], p[6], p[7]]) as u64, "yiaddr": p[16..20], "chaddr": p[28..34],
+    // well formed = the option area is closed by an END option that the walk reaches (RFC 2131: the last option must be END)
+    json!({"ok": true, "ended": ended, "nopts": opts.len(), "op": p[0], "xid": u32::from_be_bytes([p[4], p[5], p[6], p[7]]) as u64, "yiaddr": p[16..20], "chaddr": p[28..34],
            "mtype": opts.get(&53).and_then(|v| v.first().copied()).map(|x| x as i64).unwrap_or(-1), "lease": u32of(51).map(|x| x as i64).unwrap_or(-1),
            "serverid": opts.get(&54).cloned().unwrap_or_default()})
 }
@@ -729,7 +732,7 @@ pub fn http(args: &[String]) {
     let rt = tokio::runtime::Builder::new_multi_thread().worker_threads(4).enable_all().build().unwrap();
     rt.block_on(async {
         let base = now_secs();
-        let yaml = format!("addresses: [192.0.2.1/24]\nrouter-advertisements: {{veth0: {{lifetime: 1h, prefixes: [{{prefix: \"2001:db8:0:1::/64\"}}]}}}}\napi-listeners: [\"{}\", \"{}\", \"{}\", \"{}\", \"@{}\"]\n{}", TCP4, TCP6, TCPDUAL, UNIX_PATH, UNIX_ABSTRACT, OPEN_ACLS);
+        let yaml = format!("addresses: [192.0.2.1/24]\ndns-servers: [192.0.2.53, 192.0.2.54, 192.0.2.55]\ndns-search: [example.com, corp.example.org]\ncaptive-portal: \"https://portal.example/a/rather/long/path/so/that/replies/with/this/option/exceed/three/hundred/octets/0123456789/0123456789/0123456789\"\nrouter-advertisements: {{veth0: {{lifetime: 1h, prefixes: [{{prefix: \"2001:db8:0:1::/64\"}}]}}}}\napi-listeners: [\"{}\", \"{}\", \"{}\", \"{}\", \"@{}\"]\n{}", TCP4, TCP6, TCPDUAL, UNIX_PATH, UNIX_ABSTRACT, OPEN_ACLS);
         let conf = erbium::config::verif_load_config_from_string(&yaml).unwrap_or_else(|e| {
             eprintln!("rig: service configuration rejected: {}\n{}", e, yaml);
             std::process::exit(2)
@@ -826,7 +829,7 @@ pub fn http(args: &[String]) {
                         if let Some(s) = step["sid"].as_array() {
                             opts.push((54, s.iter().map(|x| x.as_u64().unwrap() as u8).collect()));
                         }
-                        opts.push((55, vec![1, 3, 6, 15, 51, 54]));
+                        opts.push((55, step["plist"].as_array().map(|a| a.iter().map(|x| x.as_u64().unwrap() as u8).collect()).unwrap_or(vec![1, 3, 6, 15, 51, 54])));
                         let flags = step["flags"].as_u64().map(|f| f as u16).unwrap_or(if step["bcast"].as_bool().unwrap_or(true) { 0x8000 } else { 0 });
                         let payload = match step["raw"].as_str() {
                             Some(h) => unhex(h),
@@ -859,7 +862,7 @@ pub fn http(args: &[String]) {
                                 w["flags"] = json!(flags);
                                 w["yiaddr"] = rs["yiaddr"].clone();
                                 w["chaddr"] = json!(chaddr);
-                                w["payload_ok"] = json!(rs["ok"] == true && rs["xid"] == xid as u64 && rs["op"] == 2);
+                                w["payload_ok"] = json!(rs["ok"] == true && rs["ended"] == true && rs["xid"] == xid as u64 && rs["op"] == 2);
                                 wire = Some(w);
                             }
                             None => {
